@@ -187,7 +187,12 @@ impl<'a> Tr<'a> {
                     return Err("identity_ctor entries are not translated".into());
                 }
                 if f.loop_body {
-                    let body_stmts: Vec<Stmt> = if f.while_body {
+                    let body_stmts: Vec<Stmt> = if f.for_body {
+                        match b.stmts.iter().find_map(|s| if let Stmt::Expr(Expr::ForLoop(w), _) = s { Some(w) } else { None }) {
+                            Some(w) if w.label.is_none() => w.body.stmts.clone(),
+                            _ => return Err(format!("for_body: no top-level `for` in {}", f.label)),
+                        }
+                    } else if f.while_body {
                         match b.stmts.iter().find_map(|s| if let Stmt::Expr(Expr::While(w), _) = s { Some(w) } else { None }) {
                             Some(w) if w.label.is_none() => w.body.stmts.clone(),
                             _ => return Err(format!("while_body: no top-level `while` in {}", f.label)),
@@ -599,7 +604,18 @@ impl<'a> Tr<'a> {
         if fl.label.is_some() {
             return self.err(fl, "untranslatable: labelled loop");
         }
-        let it = self.expr(&fl.expr, env, None)?;
+        let it = match strip_parens(&fl.expr) {
+            // `lo..hi` over integers: the list lo, lo+1, .., hi-1 (empty when hi <= lo)
+            Expr::Range(r) if matches!(r.limits, syn::RangeLimits::HalfOpen(_)) && r.start.is_some() && r.end.is_some() => {
+                let lo = self.expr(r.start.as_ref().unwrap(), env, Some(&Ty::Int))?;
+                let hi = self.expr(r.end.as_ref().unwrap(), env, Some(&Ty::Int))?;
+                if lo.ty != Ty::Int || hi.ty != Ty::Int {
+                    return self.err(fl, "untranslatable: `for` over this range");
+                }
+                val(format!("(map (fun tr_k => (Z.add {} (Z.of_nat tr_k))) (seq 0 (Z.to_nat (Z.sub {} {}))))", lo.t, hi.t, lo.t), Ty::List(Box::new(Ty::Int)))
+            }
+            _ => self.expr(&fl.expr, env, None)?,
+        };
         let it = self.drained(&it).unwrap_or(it);
         let elt = match it.ty.strip_into() {
             Ty::List(t) => (**t).clone(),
